@@ -37,13 +37,14 @@ def generate(seed, tier):
     q = rng.choice([0.0, 0.05, 0.3])
     if rng.random() < 0.3:
         if rng.random() < 0.15:
-            # a large directed input: 18-22 nodes, source and target sets of 8-10 nodes each
-            n = rng.randint(18, 22)
+            # a large directed input: source and target sets of at least 8, 16 or 24 nodes each
+            side = rng.choice([8, 8, 16, 24])  # smallest source / target set
+            n = rng.randint(2 * side + 2, 2 * side + 8)
             nodes = list(range(n))
             edges = []
             for _ in range(rng.randint(3, 5)):
-                ns = rng.sample(nodes, rng.randint(16, min(20, n)))
-                cut = rng.randint(8, len(ns) - 8)
+                ns = rng.sample(nodes, rng.randint(2 * side, n))
+                cut = rng.randint(side, len(ns) - side)
                 edges.append([ns[:cut], ns[cut:]])
             spec = {"nodes": nodes, "edges": edges, "labels": "int"}
             return {"mode": "directed", "seed": seed, "q": q, "spec": spec, "variants": rng.randint(1, 2)}
